@@ -1,6 +1,7 @@
 """C03 -- transformations are a left group action (S1, P1, W1, RO, U1)."""
 from ..rules import proj_rules as P
 from ..rules import rep_rules as R
+from ..rules import cache_rules as CA
 from ..rules.common import u1
 
 PROJ, HYP = P.PROJ, P.HYP
@@ -27,6 +28,7 @@ def run(ctx):
     P.rule_p1(ctx, ops=[o for o in P.P1_OPS if "Transformation" in o[1]])
     P.rule_roles(ctx)
     R.rule_w1(ctx)
+    CA.rule_c2(ctx, "ProjectiveObject")
     u1(ctx, ENTRIES, min_functions=20)
     ctx.r.assume("associativity, identity and inverse laws as numerical "
                  "equalities and real/complex generality are not decided")
